@@ -3,7 +3,11 @@
 seeded change into its meta.json."""
 import csv, json, os, re
 rows = list(csv.DictReader(open("/verif/seeded/MATRIX.tsv"), delimiter="\t"))
-out = ["| change | what it is | property | quick check | first report |", "|---|---|---|---|---|"]
+blind = {}
+if os.path.exists("/verif/seeded/MATRIX-blind.tsv"):
+    for r in csv.DictReader(open("/verif/seeded/MATRIX-blind.tsv"), delimiter="\t"):
+        blind[(r["change"], r["property"])] = r["exit"]
+out = ["| change | what it is | property | blind | quick | first report |", "|---|---|---|---|---|---|"]
 subj = {}
 import subprocess
 for l in subprocess.run(["git", "-C", "/repo", "log", "--format=%h %s", "--grep", "^fix:"], stdout=subprocess.PIPE, text=True).stdout.splitlines():
@@ -19,9 +23,12 @@ for r in rows:
     first = r["first violation"].split("::")[-1].strip()[:150].replace("|", "/")
     ok = r["exit"] == "1"
     det += ok
-    out.append(f"| {name} | {what.replace('|','/')} | {r['property']} | {'VIOLATION' if ok else 'exit ' + r['exit']} | {first} |")
+    bl = blind.get((name, r["property"]))
+    bl = "" if bl is None else ("VIOLATION" if bl == "1" else "exit " + bl)
+    out.append(f"| {name} | {what.replace('|','/')} | {r['property']} | {bl} | {'VIOLATION' if ok else 'exit ' + r['exit']} | {first} |")
 out.append("")
-out.append(f"{det} of {len(rows)} (change, property) pairs are reported by the quick tier.")
+out.append(f"{det} of {len(rows)} (change, property) pairs are reported by the quick tier of the current machinery; "
+           f"blind (revision 6f8271e, round-2 changes only): {sum(1 for v in blind.values() if v == '1')} of {len(blind)}.")
 s = open("/verif/DESIGN.md").read()
 a = s.index("<!-- MATRIX-BEGIN -->") + len("<!-- MATRIX-BEGIN -->")
 b = s.index("<!-- MATRIX-END -->")
